@@ -67,7 +67,10 @@ class LogController:
 
     @property
     def value(self) -> float:
-        return math.exp(self.controller.value)
+        try:
+            return math.exp(self.controller.value)
+        except OverflowError:
+            return math.inf
 
     def update(self, val: float) -> float:
         assert val > 0.0
